@@ -67,3 +67,33 @@ theorem toWireFields_codesStrict (S : Schema) : ∀ (xs : List Val) (sd : SDesc)
 end
 
 end Frugal
+
+namespace Frugal
+
+/-- the ids of the message a struct value denotes: a sublist of the field table's ids, in table
+    order — with distinct ids in the table, each written field appears exactly once -/
+theorem toWireFields_ids_sublist (S : Schema) (sd : SDesc) : ∀ (fs : List Field) (xs : List Val),
+    ((toWireFields S sd fs xs).map (·.1)).Sublist (fs.map (·.id))
+  | [], _ => by simp [toWireFields]
+  | f :: fr, [] => by simp [toWireFields]
+  | f :: fr, x :: xr => by
+    have ih := toWireFields_ids_sublist S sd fr xr
+    simp only [toWireFields]
+    split
+    · simp only [List.map_cons]; exact ih.cons₂ _
+    · simp only [List.map_cons]; exact ih.cons _
+
+theorem toWireFields_ids_distinct (S : Schema) (sd : SDesc) (fs : List Field) (xs : List Val)
+    (h : fs.Pairwise (fun a b => a.id ≠ b.id)) :
+    ((toWireFields S sd fs xs).map (·.1)).Pairwise (· ≠ ·) := by
+  have h' : (fs.map (·.id)).Pairwise (· ≠ ·) := by rw [List.pairwise_map]; exact h
+  exact h'.sublist (toWireFields_ids_sublist S sd fs xs)
+
+/-- nil non-optional containers are written empty, a nil struct pointer as an empty struct -/
+theorem toWire_nil (S : Schema) (s : Bool) (e k v : Ty) (sid : Nat) :
+    toWire S (.list s e) (.lst true []) = (if s then .set e.wire [] else .list e.wire []) ∧
+    toWire S (.map k v) (.mp true []) = .map k.wire v.wire [] ∧
+    toWire S (.ptr (.strct sid)) .nilp = .strct [] := by
+  refine ⟨?_, ?_, ?_⟩ <;> simp [toWire, toWireList, toWireEntries]
+
+end Frugal
